@@ -19,6 +19,10 @@ LABELS = ["", "a", "A", " a", "a ", "é€ß", "x" * 255]
 LABELS32 = ["", "a", "A", " a", "a ", "é€ß", "y" * 31]
 INT_FREQ = [0, 1, 100, 2 ** 31 - 1]
 INT_CHAN = [0, 1, 5, 32767]
+# full range of the on-disk type where reader and writer use the same one (u16 for platform data,
+# i16 for EMG / platform calibration / camera calibration); Data2D writes i16 and reads u16: 0..32767
+CHAN_BY_KIND = {R.T_PLATDATA: [0, 1, 5, 32767, 32768, 40000, 65535], R.T_EMG: [0, 1, 5, 32767, -1, -32768]}
+INT_CHAN_I16 = [0, 1, 5, 32767, -1, -32768]
 INT_I32 = [0, 1, -1, 2 ** 31 - 1, -(2 ** 31)]
 
 
@@ -270,7 +274,7 @@ def family(t, tier):
         for mem in ("f8",):
             yield ("mem", rle_block(t, 3, [(True, False, True)]), {"mem": mem})
         if t in (R.T_EMG, R.T_PLATDATA):
-            for ch in INT_CHAN:
+            for ch in CHAN_BY_KIND[t]:
                 yield ("chan", rle_block(t, 2, [(True, True), (True, False)], chans=[ch, 7]), opts0)
                 yield ("chan", rle_block(t, 2, [(True, True), (True, False)], chans=[7, ch]), opts0)
         if t == R.T_DATA3D:
@@ -292,6 +296,9 @@ def family(t, tier):
         for k in range(0, 4):
             for chans in itertools.permutations(INT_CHAN, k):
                 yield ("count", platcal([(c, mk_platinfo(f"P{i}", i)) for i, c in enumerate(chans)]), opts0)
+        for ch in INT_CHAN_I16:
+            yield ("chan", platcal([(ch, mk_platinfo("a", 1)), (7, mk_platinfo("b", 2))]), opts0)
+            yield ("chan", platcal([(7, mk_platinfo("a", 1)), (ch, mk_platinfo("b", 2))]), opts0)
         for lab in LABELS:
             for where in range(2):
                 labs = ["k0", "k1"]
@@ -336,6 +343,9 @@ def family(t, tier):
                     yield (f"count/f{fmt}", calib(fmt, [mk_cam(fmt, i) for i in range(k)], cmap=list(chans)), opts0)
             for model in (0, 1, 2, 3):
                 yield ("scalar", calib(fmt, [mk_cam(fmt, 1)], model=model), opts0)
+            for ch in INT_CHAN_I16:
+                yield ("chan", calib(fmt, [mk_cam(fmt, 1), mk_cam(fmt, 2)], cmap=[ch, 7]), opts0)
+                yield ("chan", calib(fmt, [mk_cam(fmt, 1), mk_cam(fmt, 2)], cmap=[7, ch]), opts0)
             for sp in _geom_devs(calib(fmt, [mk_cam(fmt, 1), mk_cam(fmt, 2)])):
                 yield ("scalar", sp, opts0)
             for vp in ("array", "2x2"):
